@@ -16,6 +16,7 @@ package frugal
 import (
 	"bytes"
 	"context"
+	"fmt"
 	"io"
 	"sync"
 
@@ -88,7 +89,11 @@ func (f *fAdapterTransport) Open() error {
 
 func (f *fAdapterTransport) readLoop(closeSignal chan struct{}) {
 	defer verifC15Yield("exit", nil)
-	framedTransport := NewTFramedTransport(f.transport)
+	// Count what the underlying transport delivers and what complete frames
+	// account for: the difference is a frame that has only partly arrived.
+	received := &countingReadTransport{TTransport: f.transport}
+	consumed := uint64(0)
+	framedTransport := NewTFramedTransport(received)
 	for {
 		frame, err := f.readFrame(framedTransport)
 		if err != nil {
@@ -101,11 +106,17 @@ func (f *fAdapterTransport) readLoop(closeSignal chan struct{}) {
 			default:
 			}
 
-			if err, ok := err.(thrift.TTransportException); ok && err.TypeId() == TRANSPORT_EXCEPTION_END_OF_FILE {
-				// EOF indicates remote peer disconnected.
-				verifC15Yield("close-eof", err)
-				f.close(closeSignal, nil)
-				return
+			if eof, ok := err.(thrift.TTransportException); ok && eof.TypeId() == TRANSPORT_EXCEPTION_END_OF_FILE {
+				pending := received.n - consumed
+				if pending == 0 {
+					// EOF between frames indicates remote peer disconnected.
+					verifC15Yield("close-eof", err)
+					f.close(closeSignal, nil)
+					return
+				}
+				// EOF inside a frame is a broken connection, not a disconnect.
+				err = thrift.NewTTransportException(TRANSPORT_EXCEPTION_END_OF_FILE,
+					fmt.Sprintf("frugal: end of stream inside a frame (%d bytes of it received)", pending))
 			}
 
 			logger().Error("frugal: error reading protocol frame, closing transport: ", err)
@@ -113,6 +124,8 @@ func (f *fAdapterTransport) readLoop(closeSignal chan struct{}) {
 			f.close(closeSignal, err)
 			return
 		}
+
+		consumed += 4 + uint64(len(frame))
 
 		if err := f.registry.Execute(frame); err != nil {
 			// An error here indicates an unrecoverable error, teardown transport.
@@ -122,6 +135,21 @@ func (f *fAdapterTransport) readLoop(closeSignal chan struct{}) {
 			return
 		}
 	}
+}
+
+// countingReadTransport counts the bytes read from a TTransport. It is used by
+// one goroutine, the read loop.
+type countingReadTransport struct {
+	thrift.TTransport
+	n uint64
+}
+
+func (c *countingReadTransport) Read(p []byte) (int, error) {
+	n, err := c.TTransport.Read(p)
+	if n > 0 {
+		c.n += uint64(n)
+	}
+	return n, err
 }
 
 func (f *fAdapterTransport) readFrame(framedTransport *TFramedTransport) ([]byte, error) {
